@@ -306,10 +306,10 @@ def the_router():
     return _ROUTER
 
 
-def real_f(transport, c):
+def real_f(transport, c, router=None):
     area = Area(latitude=c["lat0"], longitude=c["lon0"], a=c["a"], b=c["b"], angle=c["az"])
     try:
-        return the_router().gn_geometric_function_f(HST[(transport, c["shape"])], area, c["lat"], c["lon"])
+        return (router or the_router()).gn_geometric_function_f(HST[(transport, c["shape"])], area, c["lat"], c["lon"])
     except ZeroDivisionError:
         return "ZeroDivisionError"
     except Exception as e:  # noqa: BLE001
@@ -378,6 +378,113 @@ def check_direct(ctx, cases, stream="F.direct"):
         ctx.sample("direct", {"case": {k: v for k, v in c.items()}, "F": f if not isinstance(f, float) else round(f, 9),
                               "frame_xy_m": None if x is None else [round(float(x), 3), round(float(y), 3)], "kind": kind})
 
+# ---------------------------------------------------------------------------------- (a2) SEQUENCES of F evaluations on ONE router (round 6)
+
+FSEQ_VARY = ("az", "az", "az", "az", "ab", "shape", "all", "same", "point", "centre")
+
+
+def gen_fseq(rng):
+    """2-4 consecutive evaluations of F on one Router instance.  From one evaluation to the next exactly one dimension of the
+    query changes (azimuth / semi-axes / shape / the point / the centre), everything (`all`) or nothing (`same`): an
+    evaluation must not depend on what the instance was asked before (F is a function of area and point)."""
+    c = gen_case(rng, False)
+    st = {"shape": c["shape"], "a": c["a"], "b": c["b"], "az": c["az"], "lat0": c["lat0"], "lon0": c["lon0"],
+          "lat": c["lat"], "lon": c["lon"], "transport": rng.choice(["gbc", "gac"]), "vary": "first"}
+    steps = [st]
+    for _ in range(rng.choice([1, 1, 2, 3])):
+        s = dict(steps[-1])
+        v = s["vary"] = rng.choice(FSEQ_VARY)
+        if v in ("az", "all"):
+            s["az"] = (s["az"] + rng.choice([90, 90, 270, 45, 30, 180, 1, 359, rng.randrange(1, 360)])) % 360
+        if v in ("ab", "all"):
+            k = rng.choice(["swap", "grow", "shrink", "b"])
+            if k == "swap" and s["a"] != s["b"]:
+                s["a"], s["b"] = s["b"], s["a"]
+            elif k == "grow":
+                s["a"], s["b"] = min(65535, s["a"] * rng.choice([2, 3, 10])), min(65535, s["b"] * rng.choice([1, 2, 10]))
+            elif k == "shrink":
+                s["a"], s["b"] = max(1, s["a"] // rng.choice([2, 3, 10])), max(1, s["b"] // rng.choice([1, 2, 10]))
+            else:
+                s["b"] = max(1, rng.choice([s["a"], s["a"] // 7, s["b"] * 5 % 65536, rng.randrange(1, 3000)]))
+        if v in ("shape", "all"):
+            s["shape"] = rng.choice([x for x in SHAPES if x != s["shape"]])
+        if v == "point":
+            s["lat"], s["lon"] = _place_somewhere(rng, s)
+        if v == "centre":
+            p = place(s["lat0"], s["lon0"], 0, rng.uniform(-2, 2) * s["a"], rng.uniform(-2, 2) * s["a"])
+            if p is not None:
+                s["lat0"], s["lon0"] = p
+        s["transport"] = rng.choice(["gbc", "gac"])
+        steps.append(s)
+    return {"kind": "fseq", "steps": steps}
+
+
+def fseq_fixed():
+    """ellipse / rectangle 400 x 50 m, station 300 m north of the centre: on the long axis for azimuth 0, 250 m outside for
+    azimuth 90 - evaluated in both orders, and the same with the semi-axes swapped instead of the azimuth turned"""
+    out = []
+    lat0, lon0 = 485000000, -1235000000
+    lat, lon = place(lat0, lon0, 0, 300.0, 0.0)
+    for shape in ("ellipse", "rect"):
+        for seq in ((0, 90), (90, 0), (0, 180, 90), (45, 315)):
+            out.append({"kind": "fseq", "steps": [{"shape": shape, "a": 400, "b": 50, "az": az, "lat0": lat0, "lon0": lon0, "lat": lat,
+                                                    "lon": lon, "transport": "gbc" if i % 2 == 0 else "gac", "vary": "az" if i else "first"}
+                                                   for i, az in enumerate(seq)]})
+        out.append({"kind": "fseq", "steps": [{"shape": shape, "a": a, "b": b, "az": 0, "lat0": lat0, "lon0": lon0, "lat": lat, "lon": lon,
+                                                "transport": "gbc", "vary": "ab" if i else "first"} for i, (a, b) in enumerate(((400, 50), (50, 400)))]})
+    return out
+
+
+def check_fseq(ctx, cases, stream="F.sequence"):
+    lines, recs = [], []
+    for c in cases:
+        r = rs.make_router(1)[0]              # ONE instance for the whole sequence
+        bad, hist = [], []
+        for k, s in enumerate(c["steps"]):
+            f = real_f(s["transport"], s, r)
+            ctx.evals()
+            shape, a, b = s["shape"], s["a"], s["b"]
+            bb = b if shape != "circle" else max(b, 1)
+            x, y = frame_coords(s["lat0"], s["lon0"], s["az"], s["lat"], s["lon"])
+            hist.append(f"{shape} a={a} b={b} az={s['az']}")
+            if not isinstance(f, float):
+                bad.append(f"evaluation #{k + 1} ({hist[-1]}) raised {f}")
+                continue
+            if in_band(shape, a, bb, x, y):
+                ctx.cover("tolerance_skips")
+                continue
+            want = oracle_inside(shape, a, bb, x, y)
+            got = f >= 0
+            ctx.cover(f"fseq_step_{s.get('vary', 'first')}_{'in' if want else 'out'}")
+            if k:
+                p = c["steps"][k - 1]
+                px, py = frame_coords(p["lat0"], p["lon0"], p["az"], p["lat"], p["lon"])
+                pb = p["b"] if p["shape"] != "circle" else max(p["b"], 1)
+                if oracle_inside(p["shape"], p["a"], pb, px, py) != want:
+                    ctx.cover("fseq_verdict_flips_between_consecutive_evaluations")
+                    if (p["lat0"], p["lon0"], p["lat"], p["lon"]) == (s["lat0"], s["lon0"], s["lat"], s["lon"]):
+                        ctx.cover("fseq_verdict_flips_same_centre_and_point")
+                ctx.nontrivial(("fseq", s.get("vary"), shape, a, b, s["az"], p["az"], want))
+            if got != want:
+                bad.append(f"evaluation #{k + 1} on one Router ({hist[-1]}; before: {'; '.join(hist[:-1]) or 'nothing'}): point at frame "
+                           f"({float(x):.2f},{float(y):.2f}) m is {'inside' if want else 'outside'}, F = {f:.6g} says {'inside' if got else 'outside'}")
+            n, e = local_ne(s["lat0"], s["lon0"], s["lat"], s["lon"])
+            cs = unit_cs(s)
+            lines.append(f"Floc {shape} {a} {bb} {rat(cs[0])} {rat(cs[1])} {rat(n)} {rat(e)}")
+            recs.append((c, k, got))
+        ctx.cover("fseq_len_%d" % len(c["steps"]))
+        if bad:
+            ctx.violation("sequence of F evaluations on one Router instance: " + "; ".join(bad[:2]), c)
+    if ctx.model_ok and lines:
+        for (c, k, got), mo in zip(recs, ctx.model("Area", lines)):
+            mt = mo.split()
+            if len(mt) != 5 or mt[0] != "1":
+                ctx.mismatch(stream + ".unit_vector", c, "c*c+s*s=1", mo)
+            elif (mt[1] in "+0") != got:
+                ctx.mismatch(stream, dict(c, step=k), got, mo)
+    if cases:
+        ctx.sample("fseq", cases[len(cases) // 2])
+
 
 def cover_hemisphere(ctx, what, lat0, lon0):
     ctx.cover(f"{what}_hemisphere_{'N' if lat0 >= 0 else 'S'}{'E' if lon0 >= 0 else 'W'}")
@@ -395,9 +502,10 @@ def classify(tag):
 
 # ---------------------------------------------------------------------------------- (b) whole packets
 
-def lpv(router, lat, lon, pai=True):
+def lpv(router, lat, lon, pai=True, speed=0, heading=0):
+    """speed in 0.01 m/s, SIGNED 15 bit on the wire (negative = reversing); heading in 0.1 degrees"""
     return LongPositionVector(gn_addr=router.mib.itsGnLocalGnAddr, tst=TST.set_in_normal_timestamp_milliseconds(T0),
-                              latitude=lat, longitude=lon, pai=pai)
+                              latitude=lat, longitude=lon, pai=pai, s=speed, h=heading)
 
 
 def originate(c):
@@ -406,7 +514,7 @@ def originate(c):
     if c.get("hop", 10) <= 1:
         kw["itsGnDefaultHopLimit"] = 1
     A, llA, _ = rs.make_router(1, **kw)
-    A.ego_position_vector = lpv(A, c["src_lat"], c["src_lon"], c.get("src_pai", True))
+    A.ego_position_vector = lpv(A, c["src_lat"], c["src_lon"], c.get("src_pai", True), c.get("src_speed", 0), c.get("src_heading", 0))
     if c.get("nbr"):            # one neighbour in the source's location table (learnt from a beacon)
         A.location_table.new_shb_packet(LongPositionVector(gn_addr=rs.gn_addr(7), tst=TST.set_in_normal_timestamp_milliseconds(T0),
                                                            latitude=c["nbr"][0], longitude=c["nbr"][1], pai=True), b"")
@@ -428,7 +536,7 @@ def relay(c, pkt):
     it.  Returns (frames R forwarded, R's SHB frame or None, error name or None)"""
     rl = c["relay"]
     R, llR, _ = rs.make_router(3, itsGnMaxGeoAreaSize=10 ** 7, itsGnAreaForwardingAlgorithm=AreaForwardingAlgorithm.SIMPLE)
-    R.ego_position_vector = lpv(R, rl["lat"], rl["lon"], rl.get("pai", True))
+    R.ego_position_vector = lpv(R, rl["lat"], rl["lon"], rl.get("pai", True), rl.get("speed", 0), rl.get("heading", 0))
     try:
         R.gn_data_indicate(pkt)
     except Exception as e:  # noqa: BLE001
@@ -470,6 +578,15 @@ def receive(c, pkt, shb=None):
     acts = ["deliver"] * len(inds)
     for _ in sent:
         acts.append("fwd-nonarea" if greedy else "fwd-area")
+    c["_stored"] = {}
+    for who, i in (("source", 1), ("relay", 3)):       # what B's location table now holds for the stations of the case
+        try:
+            e = B.location_table.get_entry(rs.gn_addr(i))
+            pv = e.position_vector if e is not None else None
+            if pv is not None:
+                c["_stored"][who] = (pv.latitude, pv.longitude, bool(pv.pai), pv.s, pv.h)
+        except Exception:  # noqa: BLE001
+            pass
     return acts, err, inds, sent
 
 
@@ -515,6 +632,10 @@ def check_packets(ctx, cases):
             pkt = fw[0]
         rhl = pkt[3]
         acts, err, inds, sent = receive(c, pkt, shb)
+        stored = c.pop("_stored", {})
+        # state of the forwarder B: traffic class with store-carry-forward and NO neighbour in its location table (the source
+        # of a multi-hop packet is no neighbour; a relay is one only if B heard its single-hop broadcast)
+        bc = bool(c.get("scf")) and shb is None
         x, y = frame_coords(c["lat0"], c["lon0"], c["az"], c["lat"], c["lon"])
         sx, sy = frame_coords(c["lat0"], c["lon0"], c["az"], c["src_lat"], c["src_lon"])
         rx, ry = frame_coords(c["lat0"], c["lon0"], c["az"], rl["lat"], rl["lon"]) if rl else (sx, sy)
@@ -547,10 +668,42 @@ def check_packets(ctx, cases):
         if c["transport"] == "gac" and ego_in and fw:
             bad.append("GAC delivered inside the area and forwarded as well")
         if over and fw:
-            bad.append("packet with an area larger than itsGnMaxGeoAreaSize was forwarded")
-        if not over and rhl > 1 and not (c["transport"] == "gac" and ego_in):
+            bad.append("packet with an area larger than itsGnMaxGeoAreaSize was forwarded"
+                       + (" [traffic class SCF, no neighbour in the forwarder's location table]" if bc else ""))
+        # the location table must hold the position-accuracy flag the source TRANSMITTED (Annex D's SE_POS_VALID input)
+        st_so = stored.get("source")
+        if st_so is not None and not err and st_so[2] != bool(so_pai):
+            bad.append(f"source transmitted PAI={bool(so_pai)} (speed {c.get('src_speed', 0)} cm/s) but the receiver's location table holds PAI={st_so[2]}")
+        st_rl = stored.get("relay")
+        if rl and shb is not None and st_rl is not None and not err and st_rl[2] != bool(rl.get("pai", True)):
+            bad.append(f"relay transmitted PAI={bool(rl.get('pai', True))} (speed {rl.get('speed', 0)} cm/s) but the receiver's location table holds PAI={st_rl[2]}")
+        if st_so is not None and st_so[3] != c.get("src_speed", 0):
+            ctx.cover("stored_speed_differs_from_transmitted")
+        if bc and not over and rhl > 1 and not (c["transport"] == "gac" and ego_in):
+            # no neighbour and SCF: the packet belongs into the BC forwarding packet buffer; the code's stand-in for the
+            # buffer (GBC: one transmission, GAC: none) is not judged against the Annex D table, only "at most once"
+            ctx.cover("forwarder_scf_no_neighbour_fits_%s_%d_transmissions" % (c["transport"], len(fw)))
+            if len(fw) > 1:
+                annex_bad.append(f"SCF and no neighbour: {len(fw)} transmissions")
+        elif not over and rhl > 1 and not (c["transport"] == "gac" and ego_in):
             want = "fwd-area" if ego_in else ("none" if se_verdict else "fwd-nonarea")
             got = fw[0] if fw else "none"
+            if want == "fwd-nonarea" and c.get("scf") and rl:
+                # SCF and the relay is the forwarder's only neighbour: greedy forwarding (annex E.2) transmits if the relay is
+                # closer to the area centre than the forwarder, otherwise (local optimum) the packet is kept back
+                d_rl = math.hypot(*map(float, project(c["lat0"], c["lon0"], rl["lat"], rl["lon"])))
+                d_ego = math.hypot(*map(float, project(c["lat0"], c["lon0"], c["lat"], c["lon"])))
+                if abs(d_rl - d_ego) <= 1 + 0.01 * max(d_rl, d_ego):
+                    ctx.cover("tolerance_skips")
+                    lo = None
+                    want = got if got in ("none", "fwd-nonarea") else want
+                else:
+                    lo = d_rl > d_ego
+                    if lo:
+                        want = "none"
+                ctx.cover("forwarder_scf_neighbour_%s" % ("tie" if lo is None else ("local_optimum" if lo else "progress")))
+                if lo is not False:
+                    bc = None                   # state outside the model's receive function (greedy's verdict is C08's)
             if got != want or len(fw) > 1:
                 annex_bad.append(f"Annex D: ego {'inside' if ego_in else 'outside'}, sender "
                                  f"{'= source' if not rl else ('relay' if se_known else 'relay (unknown to the receiver)')} PAI={se_pai} "
@@ -582,34 +735,44 @@ def check_packets(ctx, cases):
             ctx.cover("packet_negative_coordinate_on_the_wire")
         if over:
             ctx.cover("packet_oversize_at_receiver")
+            ctx.cover("packet_oversize_at_receiver_scf%d_%s_%s" % (bool(c.get("scf")), "no_neighbour" if shb is None else "neighbour",
+                                                                 "rhl1" if rhl <= 1 else "rhl>1"))
+        sp = c.get("src_speed", 0)
+        ctx.cover("source_speed_%s_pai%d" % ("negative" if sp < 0 else ("zero" if sp == 0 else "positive"), bool(so_pai)))
+        if sp < 0 and not so_pai and so_in and not ego_in and not rl and not over and rhl > 1:
+            ctx.cover("annexD_firsthop_reversing_source_inside_without_pai_ego_outside")
         ctx.cover(f"rhl_{'1' if rhl <= 1 else ('2' if rhl == 2 else 'more')}")
-        ctx.nontrivial(("pkt", c["transport"], shape, a, b, c["az"], ego_in, so_in, so_pai, bool(rl), se_verdict, over, min(rhl, 3)))
+        ctx.nontrivial(("pkt", c["transport"], shape, a, b, c["az"], ego_in, so_in, so_pai, bool(rl), se_verdict, over, min(rhl, 3), bc,
+                        (sp > 0) - (sp < 0)))
         # ---- model: Lean rotates ego / source / sender itself (local offsets + exact unit vector), then decides
         cs = unit_cs(c)
         for (la, lo) in ((c["lat"], c["lon"]), (c["src_lat"], c["src_lon"]), ((rl["lat"], rl["lon"]) if rl else (c["src_lat"], c["src_lon"]))):
             n, e = local_ne(c["lat0"], c["lon0"], la, lo)
             lines.append(f"Floc {shape} {a} {bb} {rat(cs[0])} {rat(cs[1])} {rat(n)} {rat(e)}")
         lines.append(f"size {shape} {a} {b} {c.get('max_rx', 10 ** 7)}")
-        recs.append((tag, acts, rhl, over, (so_pai, se_known, se_pai)))
+        recs.append((tag, acts, rhl, over, (so_pai, se_known, se_pai), bc))
     if ctx.model_ok and lines:
         out = ctx.model("Area", lines)
         lines2 = []
         val = {"+": "1", "0": "0", "-": "-1"}
-        for k, (tag, acts, rhl, over, (so_pai, se_known, se_pai)) in enumerate(recs):
+        for k, (tag, acts, rhl, over, (so_pai, se_known, se_pai), bc) in enumerate(recs):
             f = [out[4 * k + j].split() for j in range(3)]
             ov = out[4 * k + 3]
             if any(len(t) != 5 or t[0] != "1" for t in f):
                 ctx.mismatch("packet.unit_vector", tag, "c*c+s*s=1", [" ".join(t) for t in f])
-                lines2.append("gbc2 source 1 1 0 0 none none")
+                lines2.append("gbc3 0 source 1 1 0 0 none none")
                 continue
             se_src = f"{1 if so_pai else 0}:{val[f[1][1]]}"
             se_snd = f"{1 if se_pai else 0}:{val[f[2][1]]}" if se_known else "none"
-            lines2.append(f"{tag['transport']}2 {key} {val[f[0][1]]} {rhl} {ov} 0 {se_src} {se_snd}")
+            if bc is None:
+                lines2.append("gbc3 0 source 1 1 0 0 none none")
+                continue
+            lines2.append(f"{tag['transport']}3 {1 if bc else 0} {key} {val[f[0][1]]} {rhl} {ov} 0 {se_src} {se_snd}")
             if (ov == "1") != over:
                 ctx.mismatch("size.oracle_vs_model", tag, over, ov)
         out2 = ctx.model("Area", lines2)
-        for (tag, acts, rhl, over, _), l2, mo in zip(recs, lines2, out2):
-            if l2.endswith("none none") and l2.startswith("gbc2 source 1 1 0 0"):
+        for (tag, acts, rhl, over, _, _), l2, mo in zip(recs, lines2, out2):
+            if l2.endswith("none none") and l2.startswith("gbc3 0 source 1 1 0 0"):
                 continue
             if "[" + " ".join(acts) + "]" != mo:
                 ctx.mismatch("packet.actions", tag, acts, mo)
@@ -644,11 +807,20 @@ def gen_packet_case(rng, relay_p=0.4):
     c["hop"] = rng.choice([1, 2, 2, 3, 10, 10, 255])
     size = float(area_size(shape, a, b)) / 1e6
     c["max_rx"] = rng.choice([10, 10, 1, 100, 10 ** 7, max(1, int(size)), int(size) + 1, max(1, int(size) - 1)])
+    # round 6: traffic class with store-carry-forward (the source gets a neighbour at the area centre so that it transmits
+    # at once; the FORWARDER's table stays empty unless it hears the relay's single-hop broadcast) x signed speed of the
+    # stations (reversing vehicle: 15 bit two's complement next to the PAI bit on the wire)
+    if rng.random() < 0.3:
+        c["scf"] = True
+        c["nbr"] = [c["lat0"], c["lon0"]]
+    c["src_speed"] = rng.choice([0, 0, 1500, 16383, -1, -150, -150, -16384, rng.randrange(-16384, 16384)])
+    c["src_heading"] = rng.choice([0, 900, 3599, rng.randrange(0, 3600)])
     if rng.random() < relay_p:                    # two hops: the receiver gets the frame from a relay, sender != source
         c["hop"] = rng.choice([3, 3, 10, 255, 2])
         rl = dict(zip(("lat", "lon"), _place_somewhere(rng, c)))
         rl["pai"] = rng.random() < 0.7
         rl["known"] = rng.random() < 0.8
+        rl["speed"] = rng.choice([0, 0, 1500, -150, -16384, rng.randrange(-16384, 16384)])
         c["relay"] = rl
         if rng.random() < 0.5:                     # make the relay forward more often: source outside or without PAI
             c["src_pai"] = rng.random() < 0.5
@@ -1673,6 +1845,8 @@ def run(ctx):
                         sweep.append(c)
             check_direct(ctx, sweep, "F.sweep")
             ctx.cover("azimuth_sweep_1deg", 360)
+        check_fseq(ctx, [c for c in corp if c.get("kind") == "fseq"] + fseq_fixed() +
+                   [gen_fseq(rng) for _ in range(ctx.scale(500, 30000))])
         check_packets(ctx, [gen_packet_case(rng) for _ in range(ctx.scale(2200, 120000))])
         check_source(ctx, ctx.scale(300, 20000))
         check_annexd(ctx, ctx.scale(600, 60000))
@@ -1707,6 +1881,7 @@ def search(ctx):
     try:
         with rs.quiet(), rs.VClock(T0):
             check_direct(ctx, [gen_case(ctx.rng, False) for _ in range(ctx.scale(12000, 300000))])
+            check_fseq(ctx, fseq_fixed() + [gen_fseq(ctx.rng) for _ in range(ctx.scale(1500, 30000))])
             check_packets(ctx, [gen_packet_case(ctx.rng) for _ in range(ctx.scale(4500, 100000))])
             check_source(ctx, ctx.scale(900, 20000))
             check_annexd(ctx, ctx.scale(1800, 60000))
@@ -1751,6 +1926,8 @@ def replay(ctx, obj):
     with rs.quiet(), rs.VClock(T0):
         if kind == "direct":
             check_direct(p, [case])
+        elif kind == "fseq":
+            check_fseq(p, [case])
         elif kind == "packet":
             check_packets(p, [case])
         elif kind == "source":
